@@ -390,7 +390,8 @@ def prepare_signature(g, thr, cls):
         problems.append("bookkeeping steps are not performed exactly once each (%s)" % kinds)
     elif not (kinds.index("size++") > max(i for i, k in enumerate(kinds) if k == "map")):
         problems.append("Size is incremented before it was recorded in the maps")
-    return tuple(items), problems
+    # independent bookkeeping statements may appear in any order: compare as a sorted multiset
+    return tuple(sorted(items, key=repr)), problems
 
 
 if __name__ == "__main__":
